@@ -514,34 +514,52 @@ def r5_tables(ctx) -> None:
             r.ok("C13.R5", f.qual, f"not condition.{fn} (for a condition that answers alike for every name)", f.loc)
         else:
             r.violation("C13.R5", f.qual, f"ConditionNOT.{fn}: {bad[0]}", f"NOT node must return the negation of its operand's {fn}()", f.loc)
-    # YAML key tables
+    # YAML key tables: ProcessingItem.from_dict interpreted (sa.tabulate, ClassProxy) on a definition in which every key holds a
+    # value that names the key; the condition parsers and the linking lookup are recorders
+    from ..tabulate import ClassProxy as _CPy, call_method as _cmy, Raised as _Ry
     b = prog.func(PIPE + ".ProcessingItemBase._base_args_from_dict")
     fd = prog.func(PIPE + ".ProcessingItem.from_dict")
-    want = {
-        "rule_conditions": ("rule_conditions", b), "rule_condition_expression": ("rule_cond_expr", b), "rule_condition_linking": ("rule_cond_op", b),
-        "rule_condition_negation": ("rule_cond_not", b), "identifier": ("id", b),
-        "detection_item_conditions": ("detection_item_conditions", fd), "detection_item_condition_expression": ("detection_item_cond_expr", fd),
-        "detection_item_condition_linking": ("detection_item_cond_op", fd), "detection_item_condition_negation": ("detection_item_cond_not", fd),
-        "field_name_conditions": ("field_name_conditions", fd), "field_name_condition_expression": ("field_name_cond_expr", fd),
-        "field_name_condition_linking": ("field_name_cond_op", fd), "field_name_condition_negation": ("field_name_cond_not", fd),
-    }
-    for f in (b, fd):
-        dicts = [d for d in walk_no_nested(f.node) if isinstance(d, ast.Dict) and any(isinstance(k, ast.Constant) and k.value in want for k in d.keys)]
-        found = {}
-        for d in dicts:
-            for k, v in zip(d.keys, d.values):
-                if isinstance(k, ast.Constant) and k.value in want:
-                    found[k.value] = v
-        for attr, (key, ff) in want.items():
-            if ff is not f:
-                continue
-            v = found.get(attr)
-            loc = f"{f.module.relpath}:{v.lineno}" if v is not None else f.loc
-            keys = _doc_keys(f, v) if v is not None else set()
-            if keys == {key}:
-                r.ok("C13.R5", f.qual, f"{attr} ← d[{key!r}]", loc)
-            else:
-                r.violation("C13.R5", f.qual, f"{attr} ← {sorted(keys)}", f"attribute {attr} must be fed from the document key {key!r} of its own condition group (found {sorted(keys)})", loc)
+    groups = {"rule": "rule_conditions", "detection_item": "detection_item_conditions", "field_name": "field_name_conditions"}
+    doc = {"id": "<id>", "type": "<type>"}
+    for g_ in groups:
+        doc.update({f"{g_}_conditions": [f"<{g_}_conditions>"], f"{g_}_cond_expr": f"<{g_}_cond_expr>", f"{g_}_cond_op": f"<{g_}_cond_op>", f"{g_}_cond_not": f"<{g_}_cond_not>"})
+    built_y: dict = {}
+    envy = {"rule_conditions": "MAPPING:rule", "detection_item_conditions": "MAPPING:detection_item", "field_name_conditions": "MAPPING:field_name",
+            "parse_condition_expression": lambda t_: ("expression of", t_), "cast": lambda t_, v_: v_, "transformations": "TRANSFORMATIONS"}
+    overrides_y = {"_parse_conditions": lambda mapping, defs: ("conditions", mapping, tuple(defs) if isinstance(defs, list) else defs),
+                   "_parse_condition_linking": lambda d_, key_=None: ("linking of", d_.get(key_) if isinstance(d_, dict) else d_),
+                   "_instantiate_transformation": lambda *a_, **k_: "TRANSFORMATION"}
+    klass_y = _CPy(prog, PIPE + ".ProcessingItem", envy, ctor=lambda *a_, **k_: (built_y.update(k_), "ITEM")[1], interp_kwargs={"max_steps": 8000}, overrides=overrides_y)
+    try:
+        _cmy(prog, PIPE + ".ProcessingItem", "from_dict", klass_y, envy, dict(doc), interp_kwargs={"max_steps": 8000})
+        raised_y = None
+    except _Ry as ex:
+        raised_y = str(ex)
+    want_y = {"identifier": "<id>"}
+    for g_ in groups:
+        want_y[f"{g_}_conditions"] = ("conditions", f"MAPPING:{g_}", (f"<{g_}_conditions>",))
+        want_y[f"{g_}_condition_expression"] = ("expression of", f"<{g_}_cond_expr>")
+        want_y[f"{g_}_condition_linking"] = ("linking of", f"<{g_}_cond_op>")
+        want_y[f"{g_}_condition_negation"] = f"<{g_}_cond_not>"
+    for attr, wv in want_y.items():
+        f = b if attr.startswith("rule_") or attr == "identifier" else fd
+        key = {"identifier": "id"}.get(attr, attr.replace("_condition_expression", "_cond_expr").replace("_condition_linking", "_cond_op").replace("_condition_negation", "_cond_not"))
+        got_v = built_y.get(attr, "<not passed to the constructor>") if raised_y is None else f"<raises {raised_y}>"
+        if got_v == wv:
+            r.ok("C13.R5", f.qual, f"{attr} ← d[{key!r}]", f.loc)
+        else:
+            r.violation("C13.R5", f.qual, f"{attr} ← {got_v!r}", f"attribute {attr} must be fed from the document key {key!r} of its own condition group (found {got_v!r})", f.loc)
+    # an absent expression stays absent (None), it is not parsed
+    built_y.clear()
+    try:
+        _cmy(prog, PIPE + ".ProcessingItem", "from_dict", klass_y, envy, {"id": "x", "type": "t"}, interp_kwargs={"max_steps": 8000})
+        absent = {k_: built_y.get(k_, "<missing>") for k_ in built_y if k_.endswith("_condition_expression")}
+    except _Ry as ex:
+        absent = {"<raises>": str(ex)}
+    if absent and all(v_ is None for v_ in absent.values()):
+        r.ok("C13.R5", fd.qual, "without the *_cond_expr keys the three expressions are None", fd.loc)
+    else:
+        r.violation("C13.R5", fd.qual, f"expressions of a definition without *_cond_expr: {absent}", "an absent condition expression must stay None (linking then defaults to all)", fd.loc)
     pl = prog.func(PIPE + ".ProcessingItemBase._parse_condition_linking")
     tabs = [d for d in walk_no_nested(pl.node) if isinstance(d, ast.Dict)]
     if tabs and {unparse(k): unparse(v) for k, v in zip(tabs[0].keys, tabs[0].values)} == {"'or'": "any", "'and'": "all", "None": "None"}:
